@@ -107,6 +107,8 @@ def check(item, tier):
         if n == 1 or build.has_tiny_probability(spec_item) or n >= 5:
             e9 = F(1, 10 ** 9)
             lat[2] = LATTICE[2] + [(1 - e9, e9), (e9, 1 - e9)]       # near-deterministic policies (positive but tiny probabilities)
+        current = {}
+        shared_fp = FunctionalPolicy(lambda ls: DictDistribution({al(a): float(w) for a, w in current['pi'][mdp.s_of[ls]].items()}))
         for pidx, combo in enumerate(product(*[lat[len(spec.acts[s])] for s in range(n)])):
             pi = {s: {a: w for a, w in zip(spec.acts[s], combo[s])} for s in range(n)}
             form = FORMS[(fi + pidx) % 3]
@@ -116,8 +118,9 @@ def check(item, tier):
                     data = np.array([[float(pi[mdp.s_of[ls]].get(mdp.a_of[la], 0)) for la in alist] for ls in slist])
                     pol = TabularPolicy.from_state_action_lists(state_list=mdp.state_list, action_list=mdp.action_list, data=data)
                 elif form == 'to_tabular':
-                    fp = FunctionalPolicy(lambda ls: DictDistribution({al(a): float(w) for a, w in pi[mdp.s_of[ls]].items()}))
-                    pol = fp.to_tabular(mdp.state_list, mdp.action_list)
+                    # the same policy object is tabulated again and again while the parameters it reads change
+                    current['pi'] = pi
+                    pol = shared_fp.to_tabular(mdp.state_list, mdp.action_list)
                 else:
                     sl2, al2 = slist[::-1], alist[::-1]
                     data = np.array([[float(pi[mdp.s_of[ls]].get(mdp.a_of[la], 0)) for la in al2] for ls in sl2])
